@@ -86,7 +86,9 @@ pub fn sems(ctx: &mut Ctx, lo: usize, hi: usize) {
 
 pub fn scale(ctx: &mut Ctx) {
     ctx.stage("U-SCALE (255/256/257/300 of every countable thing)");
-    for (name, prog) in super::super::universes::scale::programs(!ctx.quick()) {
+    let mut all = super::super::universes::scale::programs(!ctx.quick());
+    all.extend(super::super::universes::scale::programs_u16());
+    for (name, prog) in all {
         if ctx.take().is_none() { continue }
         let fuel = Fuel { steps: 2_000_000, depth: 2_000, cells: 100_000, array: 10_000, output: 1_000_000 };
         let r = refsem::run_with(&prog, fuel, &[]);
